@@ -170,6 +170,26 @@ def handle (op : String) (j : Json) : Option Json :=
     match (do let t ← arr? j "text"; let o ← nat? j "offset"; pure (chars t, o)) with
     | none => some (bad "loc.synerr: parse")
     | some (text, o) => some (obj [("model", obj [("printed", .str (syntaxErrorLoc text o).render)])])
+  | "syn.kind" =>
+    -- {"text":…, "at":n, "tok":[code points of the offending token]} → the offset a syntax error has to
+    -- report when its offender is the token `tok` placed at byte `at` (checked here: the text really
+    -- has `tok` at that offset; empty `tok` = end of input / no token), the reference line/column of
+    -- that offset (column only when the line prefix is ASCII) and the location CompactFormat prints
+    -- for it by the `syntaxErrorLoc` model
+    match (do let t ← arr? j "text"; let o ← nat? j "at"; let k ← arr? j "tok"; pure (chars t, o, chars k)) with
+    | none => some (bad "syn.kind: parse")
+    | some (text, o, tok) =>
+      match Spec.splitAt? text o with
+      | none => some (bad "syn.kind: the offender is not at a character boundary")
+      | some (pre, post) =>
+        if !(tok.isPrefixOf post) then some (bad "syn.kind: the offender is not at the given offset") else
+        let col : Json := if isAsciiList (Spec.linePrefix pre) then toJson (Spec.column pre) else .null
+        -- the empty text has no position at all: the code prints 1:2 (clamped to offset 0, column + 1),
+        -- recorded by the model only
+        let start : Json := if text.isEmpty then .str "*" else Json.arr #[toJson (Spec.line pre), col]
+        some (obj [("spec", obj [("offset", toJson o), ("start", start), ("printed", .str "*")]),
+                   ("model", obj [("offset", toJson o), ("start", .str "*"),
+                                  ("printed", .str (syntaxErrorLoc text o).render)])])
   | "blk.scan" =>
     -- {"text":[code points of the text after `|||`]} → what the scanner does with it
     match (do let t ← arr? j "text"; pure (chars t)) with
